@@ -109,7 +109,7 @@ def token_big(check, pid, tier, seed, work, rows_file=None):
     viol = []
     if failing:
         os.makedirs(os.path.join(ROOT, "replays"), exist_ok=True)
-        path = os.path.join(ROOT, "replays", f"{pid}-{tier}-seed{seed}.bigrows.json")
+        path = os.path.join(ROOT, "replays", f"{pid}-{tier}-seed{seed}{vlib.REPLAY_TAG}.bigrows.json")
         json.dump([rows[i] for i in failing], open(path, "w"), indent=1)
         r = rows[failing[0]]
         viol.append((path, f"big-number row violates the C10 swap clauses: LossLessSwap(input={r['inp']}, ratio={r['rn']}e-18, "
@@ -301,7 +301,7 @@ def _cs_eval(pid, tier, seed, work, kind, name, extends, fields, stepok, meta, a
     viol = []
     if failing:
         os.makedirs(os.path.join(ROOT, "replays"), exist_ok=True)
-        path = os.path.join(ROOT, "replays", f"{pid}-{tier}-seed{seed}.bigrows.json")
+        path = os.path.join(ROOT, "replays", f"{pid}-{tier}-seed{seed}{vlib.REPLAY_TAG}.bigrows.json")
         json.dump(dict(meta, kind=kind, failing=[rows[i] for i in failing]), open(path, "w"), indent=1)
         viol.append((path, describe(rows[failing[0]])))
     return viol, cov
@@ -489,7 +489,7 @@ def token_cap_big(check, pid, tier, seed, work):
     viol = []
     if failing:
         os.makedirs(os.path.join(ROOT, "replays"), exist_ok=True)
-        path = os.path.join(ROOT, "replays", f"{pid}-{tier}-seed{seed}.bigrows.json")
+        path = os.path.join(ROOT, "replays", f"{pid}-{tier}-seed{seed}{vlib.REPLAY_TAG}.bigrows.json")
         json.dump({"seed": seed, "n": n, "len": ln, "failing": [rows[i] for i in failing]}, open(path, "w"), indent=1)
         viol.append((path, "big-number row violates the C09 clauses: " + _cap_text(rows[failing[0]])))
     return viol, cov
@@ -602,7 +602,7 @@ def oracle_big(check, pid, tier, seed, work):
     viol = []
     if failing:
         os.makedirs(os.path.join(ROOT, "replays"), exist_ok=True)
-        path = os.path.join(ROOT, "replays", f"{pid}-{tier}-seed{seed}.bigrows.json")
+        path = os.path.join(ROOT, "replays", f"{pid}-{tier}-seed{seed}{vlib.REPLAY_TAG}.bigrows.json")
         json.dump({"seed": seed, "n": n, "len": ln, "failing": [rows[i] for i in failing]}, open(path, "w"), indent=1)
         viol.append((path, "big-number row violates C17_Aggregate (OracleClauses): " + _ora_text(rows[failing[0]])))
     return viol, cov
@@ -729,7 +729,7 @@ def service_big(check, pid, tier, seed, work):
     viol = []
     if failing:
         os.makedirs(os.path.join(ROOT, "replays"), exist_ok=True)
-        path = os.path.join(ROOT, "replays", f"{pid}-{tier}-seed{seed}.bigrows.json")
+        path = os.path.join(ROOT, "replays", f"{pid}-{tier}-seed{seed}{vlib.REPLAY_TAG}.bigrows.json")
         json.dump({"seed": seed, "n": n, "len": ln, "failing": [rows[i] for i in failing]}, open(path, "w"), indent=1)
         r = rows[failing[0]]
         clause = {"answer": "C07_Answer", "slash": "C07_Expire", "block": "C07_Expire", "settle": "C07_Charge",
